@@ -147,7 +147,7 @@ def stacks(tier):
 
 
 def shards(tier):
-    return [("stacks", p, d) for p in range(len(POSITIONS)) for d in range(len(DOCS))] + [("files", 0), ("illegal", 0), ("protocol", 0), ("reuse", 0), ("hooks", 0), ("libresults", 0)] + [("bigpass", n) for n in BIGPASS_SIZES[tier]] + [("bigfile", e) for e in BIG_ENCODINGS]
+    return [("stacks", p, d) for p in range(len(POSITIONS)) for d in range(len(DOCS))] + [("files", 0), ("illegal", 0), ("protocol", 0), ("reuse", 0), ("hooks", 0), ("libresults", 0)] + [("reentry", 0)] + [("bigpass", n) for n in BIGPASS_SIZES[tier]] + [("bigfile", e) for e in BIG_ENCODINGS]
 
 
 def fresh(idxs):
@@ -1035,6 +1035,104 @@ class _DropThirds(BlockMiddleware):
         return None if int(entry.key[1:].rstrip("!")) % 3 == 0 else entry
 
 
+REENTRY_OUTER = '@string{os = "ov"}\n@article{o1, author = {Ann Lee and Bo Ray}, t = os, month = jan}\n% between\n@book{o2, u = {x} # os, year = 1999}\n@misc{o3, f = {1}, f = {2}}\n@a{o1, v = 3}\n@misc{o4, g = {7}}\n'
+REENTRY_INNER = '@string{is = "iv"}\n@misc{i1, author = {Cy Dow}, w = is, month = 2}\n@misc{i1, dup = 1}\n@broken{i2, a b}\ntrailing text\n@c{i3, q = {4}, q = {5}}\n'
+
+
+def _inner_calls():
+    """What a callback may do with the library while an outer call is running: name -> zero-argument callable that
+    returns something canon() can compare."""
+    names = lambda: [mw.SeparateCoAuthors(), mw.SplitNameParts()]
+    return {
+        "parse_string": lambda: bibtexparser.parse_string(REENTRY_INNER),
+        "parse_string(parse_stack=[])": lambda: bibtexparser.parse_string(REENTRY_INNER, parse_stack=[]),
+        "parse_string with name and month middlewares": lambda: bibtexparser.parse_string(REENTRY_INNER, append_middleware=names() + [mw.MonthIntMiddleware()]),
+        "parse of a text that ends inside a block": lambda: bibtexparser.parse_string(REENTRY_INNER + "@d{open, x = {"),
+        "write_string": lambda: bibtexparser.write_string(bibtexparser.parse_string(REENTRY_INNER)),
+        "write_string with sorting and an auto column": lambda: bibtexparser.write_string(bibtexparser.parse_string(REENTRY_INNER), prepend_middleware=[mw.SortBlocksByTypeAndKeyMiddleware()], bibtex_format=_auto_format()),
+        "library edits": lambda: _library_edits(),
+        "latex round trip": lambda: mw.LatexDecodingMiddleware().transform(mw.LatexEncodingMiddleware().transform(Library([Entry("a", "x", [Field("t", "caf\xe9 & $a_1$")])]))),
+    }
+
+
+def _auto_format():
+    f = BibtexFormat()
+    f.value_column = "auto"
+    f.indent = "  "
+    return f
+
+
+def _library_edits():
+    lib = bibtexparser.parse_string(REENTRY_INNER)
+    lib.add(Entry("misc", "i1", [Field("z", "9")]))
+    lib.remove(lib.entries[0])
+    lib.add(String("is", "again"))
+    return lib
+
+
+class _Reenter(BlockMiddleware):
+    """A user block middleware whose entry hook, at the k-th entry it sees, uses the library again - inline, or in another
+    thread that it waits for - and otherwise changes nothing."""
+
+    def __init__(self, call, at, threaded, inplace=True):
+        super().__init__(allow_inplace_modification=inplace)
+        self.call, self.at, self.threaded, self.seen, self.results = call, at, threaded, 0, []
+
+    def transform_entry(self, entry, library):
+        if self.seen == self.at:
+            if self.threaded:
+                import threading
+
+                box = []
+                t = threading.Thread(target=lambda: box.append(attempt(self.call)))
+                t.start()
+                t.join()
+                self.results.append(box[0] if box else ("raised", "thread died"))
+            else:
+                self.results.append(attempt(self.call))
+        self.seen += 1
+        return entry
+
+
+def check_reentry(acc):
+    """Two calls in flight: while parse_string / write_string run over one document, a callback of the caller's own
+    middleware makes a complete second call (every kind of call, at the first / a middle / the last entry, inline or in
+    a second thread).  The outer call gives what it gives with a callback that does nothing; the inner call gives what it
+    gives on its own."""
+    cmpv = lambda r: ("ok", canon(r[1])) if r[0] == "ok" else r
+    for name, call in _inner_calls().items():
+        alone = cmpv(attempt(call))
+        for route in ("parse_string(append_middleware)", "parse_string(parse_stack)", "write_string(prepend_middleware)", "write_string(unparse_stack)"):
+            def outer(m):
+                if route == "parse_string(append_middleware)":
+                    return bibtexparser.parse_string(REENTRY_OUTER, append_middleware=[mw.MonthIntMiddleware(), m, mw.SeparateCoAuthors()])
+                if route == "parse_string(parse_stack)":
+                    return bibtexparser.parse_string(REENTRY_OUTER, parse_stack=[m, mw.ResolveStringReferencesMiddleware(), mw.RemoveEnclosingMiddleware()])
+                lib = bibtexparser.parse_string(REENTRY_OUTER)
+                if route == "write_string(prepend_middleware)":
+                    return bibtexparser.write_string(lib, prepend_middleware=[m, mw.MonthLongStringMiddleware()], bibtex_format=_auto_format())
+                return bibtexparser.write_string(lib, unparse_stack=[mw.AddEnclosingMiddleware(False, True, '"'), m])
+
+            ref = cmpv(attempt(lambda: outer(_Reenter(lambda: None, -1, False))))
+            for at in (0, 1, 2):
+                for threaded in (False, True):
+                    case = {"reentry": name, "route": route, "at_entry": at, "in_another_thread": threaded}
+                    acc.trace(2)
+                    acc.case(nontrivial_key=("reentry", name, route, at, threaded))
+                    acc.count("calls_in_flight")
+                    m = _Reenter(call, at, threaded)
+                    got = cmpv(attempt(lambda: outer(m)))
+                    if not m.results and got == ref:
+                        acc.harness_error(f"re-entry callback not reached: {case}")
+                        continue
+                    inner = cmpv(m.results[0]) if m.results else ("not called",)
+                    acc.step(("outer", route), ("inner", name, at, threaded), hash(repr(got)))
+                    if got != ref:
+                        acc.violation({"oracle": "outer_call_unaffected_by_a_call_made_from_its_callback", "route": route.split("(")[0]}, {"case": case, "observed": repr(got)[:400], "expected": repr(ref)[:400]})
+                    elif inner != alone:
+                        acc.violation({"oracle": "call_made_from_a_callback_gives_what_it_gives_alone", "inner": name.split("(")[0]}, {"case": case, "observed": repr(inner)[:400], "expected": repr(alone)[:400]})
+
+
 BIGPASS_SIZES = {"quick": [255, 256, 257, 999, 1000, 1001, 1002, 1003, 1025, 2049, 4099], "thorough": [255, 256, 257, 999, 1000, 1001, 1002, 1003, 1025, 2049, 4099, 8193, 16387, 65539]}
 
 
@@ -1078,6 +1176,8 @@ def check_bigpass(n, acc):
 def run_shard(shard, tier, acc):
     if shard[0] == "bigpass":
         return check_bigpass(shard[1], acc)
+    if shard[0] == "reentry":
+        return check_reentry(acc)
     with tempfile.TemporaryDirectory(prefix="verif-c20-") as tmpdir:
         if shard[0] == "stacks":
             _, pos, di = shard
@@ -1116,6 +1216,8 @@ def replay(case, acc):
             check_bigfile(case["bigfile"], acc, tmpdir)
         elif "bigpass" in case:
             check_bigpass(case["bigpass"], acc)
+        elif "reentry" in case:
+            check_reentry(acc)
         elif "failure" in case or "parse_failure" in case:
             check_failures(acc, tmpdir)
         elif "illegal" in case:
